@@ -105,7 +105,25 @@ func (n *ParallelNode) Run(ctx context.Context) error {
 		close(workerJobs)
 		close(coordinatorJobs)
 		workerWg.Wait()
-		coordinatorWg.Wait()
+		// Keep draining errs while waiting for the coordinator: it reports one
+		// error per failed message and blocks once the channel is full, so
+		// waiting for it first would deadlock when more messages fail than the
+		// channel can hold.
+		coordinatorDone := make(chan struct{})
+		go func() {
+			coordinatorWg.Wait()
+			close(coordinatorDone)
+		}()
+		for done := false; !done; {
+			select {
+			case workerErr := <-errs:
+				err = cerrors.LogOrReplace(err, workerErr, func() {
+					n.logger.Warn(ctx).Err(workerErr).Msg("parallel worker node failed")
+				})
+			case <-coordinatorDone:
+				done = true
+			}
+		}
 		for {
 			select {
 			case workerErr := <-errs:
